@@ -13,3 +13,5 @@ pub mod signal;
 pub mod sync;
 pub mod testonly;
 pub mod time;
+#[cfg(era_consensus_verif)]
+pub mod verif;
